@@ -225,10 +225,13 @@ func (dl *dialLog) judgeDropped(c *fw.Ctx, id, descr string, cl *sim.Cluster) {
 	recs := append([]*dialRec{}, dl.recs...)
 	dl.mu.Unlock()
 	evs := cl.Log.Snapshot()
-	simConn := map[string]int64{} // client's local address -> server-side connection id
+	// (server, client's local address) -> server-side connection id; the local
+	// address alone is ambiguous: the kernel may give connections to different
+	// servers the same local port
+	simConn := map[string]int64{}
 	for _, e := range evs {
 		if e.Kind == "accept" {
-			simConn[e.Info] = e.Conn
+			simConn[e.Server+"|"+e.Info] = e.Conn
 		}
 	}
 	for _, r := range recs {
@@ -246,7 +249,7 @@ func (dl *dialLog) judgeDropped(c *fw.Ctx, id, descr string, cl *sim.Cluster) {
 				faulty = true
 			}
 		}
-		if sid, ok := simConn[r.conn.LocalAddr().String()]; ok {
+		if sid, ok := simConn[r.addr+"|"+r.conn.LocalAddr().String()]; ok {
 			for _, e := range evs {
 				if e.Conn == sid && (e.Kind == "conn-kill" || e.Kind == "fault") {
 					faulty = true
@@ -266,13 +269,20 @@ func (dl *dialLog) judgeDropped(c *fw.Ctx, id, descr string, cl *sim.Cluster) {
 	}
 }
 
+// closedAfter returns a channel that is closed after d.
+func closedAfter(d time.Duration) chan struct{} {
+	ch := make(chan struct{})
+	time.AfterFunc(d, func() { close(ch) })
+	return ch
+}
+
 type c20Case struct {
 	Seed    int64
 	Servers int
 	Regions int
 	Users   int
 	Later   int
-	Fault   string // "" | reset | abort-exc | dial-fail-once | read-error | split-lonely | probe-opening | action-stopped
+	Fault   string // "" | reset | abort-exc | dial-fail-once | read-error | split-lonely | probe-opening | action-stopped | slow-reply-deadline | merge-by-miss
 	Queue   int
 	// Precache: "" | before | during - CacheRegions (every region of the table
 	// discovered and connected at once by the client itself) before or during the burst
@@ -322,7 +332,7 @@ func runC20Case(c *fw.Ctx, id string, cs c20Case) {
 	}
 	cl.EchoResults = true
 	dl := &dialLog{}
-	var faultOnce int32
+	var faultOnce, nsreOnce int32
 	var fault func(addr string, n int) *faultconn.Fault
 	switch cs.Fault {
 	case "read-error":
@@ -353,7 +363,16 @@ func runC20Case(c *fw.Ctx, id string, cs c20Case) {
 		}
 	case "action-stopped":
 		// one action of a multi-request is answered with a server-fatal class
-		// ("regionserver stopped") while the server keeps the connection open
+		// ("regionserver stopped") while the server keeps the connection open;
+		// every other "last action" case answers the request's first region
+		// with a region-level "not serving" ahead of it
+		cl.OnRegionAction = func(req *sim.Request, region []byte) *sim.Exc {
+			if cs.Seed%4 == 3 && len(req.Multi) > 1 && string(req.Multi[0].Region) == string(region) &&
+				len(req.Multi[len(req.Multi)-1].Actions) > 0 && atomic.LoadInt32(&faultOnce) == 0 && atomic.CompareAndSwapInt32(&nsreOnce, 0, 1) {
+				return &sim.Exc{Class: sim.ExcNSRE}
+			}
+			return nil
+		}
 		cl.OnAction = func(req *sim.Request, a *sim.Action) *sim.Exc {
 			if req.Multi != nil && a.OpID != "" {
 				// the first or (every other case) the last action of a multi-request
@@ -422,6 +441,11 @@ func runC20Case(c *fw.Ctx, id string, cs c20Case) {
 	}
 	for u := 0; u < cs.Users; u++ {
 		key := fmt.Sprintf("%03d", r.Intn(1000))
+		if cs.Fault == "merge-by-miss" && len(bounds) > 0 {
+			// only the first region is known before the merge
+			hi := 1000 / cs.Regions
+			key = fmt.Sprintf("%03d", r.Intn(hi))
+		}
 		wg.Add(1)
 		go func() {
 			defer wg.Done()
@@ -443,6 +467,43 @@ func runC20Case(c *fw.Ctx, id string, cs c20Case) {
 	if !within(60*time.Second, wg.Wait) {
 		c.Violate(id, "conn:first-users-stuck", "first users did not finish in 60s: "+cs.String(), cs)
 		return
+	}
+	if cs.Fault == "slow-reply-deadline" {
+		// one caller gives up (its own deadline) while the healthy server takes its
+		// time to answer: that costs the caller its request, not everybody the connection
+		var slowOnce int32
+		cl.OnRequest = func(req *sim.Request) *sim.Reply {
+			if req.Single != nil && strings.HasSuffix(req.Single.OpID, "-slow") && atomic.CompareAndSwapInt32(&slowOnce, 0, 1) {
+				return &sim.Reply{HoldDefault: closedAfter(150 * time.Millisecond)}
+			}
+			return nil
+		}
+		ctx, cancel := context.WithTimeout(context.Background(), 30*time.Millisecond)
+		g, _ := hrpc.NewGetStr(ctx, "t", fmt.Sprintf("%03d", r.Intn(1000)), hrpc.SkipBatch(), hrpc.Families(map[string][]string{"echo": {sim.OpIDPrefix + id + "-slow"}}))
+		_, err := client.Get(g)
+		cancel()
+		if err == nil {
+			c.Count("slow_reply_arrived_in_time", 1)
+		} else {
+			c.Count("calls_given_up_on_a_slow_server", 1)
+		}
+		time.Sleep(160 * time.Millisecond)
+	}
+	if cs.Fault == "merge-by-miss" && len(regs) >= 2 {
+		// the first two regions (same server) merge; the client learns of it through
+		// a cache miss (a key of the second one, never used before), not through a failure
+		if _, err := cl.MergeRegions(regs[0].Name, regs[1].Name, regs[0].Server); err == nil {
+			lo, hi := 1000/cs.Regions, 2*1000/cs.Regions
+			for i := 0; i < 3; i++ {
+				if err := do(fmt.Sprintf("%03d", lo+r.Intn(hi-lo))); err != nil {
+					atomic.AddInt32(&failed, 1)
+				}
+			}
+			if err := do(fmt.Sprintf("%03d", r.Intn(lo))); err != nil {
+				atomic.AddInt32(&failed, 1)
+			}
+			c.Count("merges_discovered_by_cache_miss", 1)
+		}
 	}
 	if cs.Fault == "split-lonely" {
 		// the lonely region splits in place: no connection fails, its daughters
@@ -473,7 +534,7 @@ func runC20Case(c *fw.Ctx, id string, cs c20Case) {
 		c.Violate(id, "conn:request-failed", fmt.Sprintf("%d request(s) failed: %s", n, cs), cs)
 	}
 	time.Sleep(5 * time.Millisecond)
-	dl.judge(c, id, cs.String(), cs.Fault == "" || cs.Fault == "split-lonely" || cs.Fault == "probe-opening", true, cl)
+	dl.judge(c, id, cs.String(), cs.Fault == "" || cs.Fault == "split-lonely" || cs.Fault == "probe-opening" || cs.Fault == "slow-reply-deadline" || cs.Fault == "merge-by-miss", true, cl)
 	if cs.Fault == "probe-opening" {
 		c.Count("probe_opening_runs", 1)
 	}
@@ -500,7 +561,7 @@ func init() {
 			return fw.Plan{Batches: 8, Parallel: 8, Timeout: 6 * time.Minute}
 		},
 		Floors: func(tier string) map[string]int64 {
-			return map[string]int64{"first_user_bursts": 600, "addresses_checked": 200, "redial_justifications_checked": 30, "fault_free_runs": 40, "in_place_splits": 40, "probe_opening_runs": 40, "cache_regions_calls": 150}
+			return map[string]int64{"first_user_bursts": 600, "addresses_checked": 200, "redial_justifications_checked": 30, "fault_free_runs": 40, "in_place_splits": 40, "probe_opening_runs": 40, "cache_regions_calls": 150, "merges_discovered_by_cache_miss": 30, "calls_given_up_on_a_slow_server": 20}
 		},
 		Run: func(c *fw.Ctx) {
 			r := c.Rand("c20")
@@ -508,8 +569,14 @@ func init() {
 			for i := 0; i < n; i++ {
 				cs := c20Case{Seed: r.Int63(), Servers: 1 + r.Intn(3), Regions: []int{1, 2, 4, 8, 16, 32}[r.Intn(6)],
 					Users: []int{1, 2, 8, 32, 128}[r.Intn(5)], Later: r.Intn(21), Queue: []int{1, 5, 100}[r.Intn(3)],
-					Fault:    []string{"", "", "reset", "abort-exc", "dial-fail-once", "read-error", "split-lonely", "probe-opening", "action-stopped"}[r.Intn(9)],
+					Fault:    []string{"", "", "reset", "abort-exc", "dial-fail-once", "read-error", "split-lonely", "probe-opening", "action-stopped", "slow-reply-deadline", "merge-by-miss"}[r.Intn(11)],
 					Precache: []string{"", "", "before", "during"}[r.Intn(4)], Dotted: r.Intn(5) == 0}
+				if cs.Fault == "merge-by-miss" {
+					cs.Servers, cs.Dotted = 1, false
+					if cs.Regions < 2 {
+						cs.Regions = 2
+					}
+				}
 				if cs.Fault == "split-lonely" {
 					cs.Servers = 2 + r.Intn(2)
 					if cs.Regions < 2 {
